@@ -118,6 +118,9 @@ func LoadProgram(dir string) (*Program, error) {
 func loadSpecs(pkgs []*packages.Package) (*SpecDB, error) {
 	db := &SpecDB{Files: map[string]*SpecFile{}, Contracts: map[string]*FuncContract{}, SpecFuncs: map[string]*SpecFunc{},
 		Lemmas: map[string]*Lemma{}, Ghosts: map[string]*GhostVar{}}
+	for _, g := range builtinGhosts {
+		db.Ghosts[g.Name] = g
+	}
 	sorted := append([]*packages.Package(nil), pkgs...)
 	sort.Slice(sorted, func(i, j int) bool { return sorted[i].PkgPath < sorted[j].PkgPath })
 	for _, p := range sorted {
